@@ -21,7 +21,10 @@ def date(c, r):
         "empty": "",
         "unpadded": r.choice(["2025-1-1T10:30:00Z", "2025-01-01T1:3:0Z"]), "lower_tz": r.choice(["2025-01-01t10:30:00z", "2025-01-01T10:30:00z"]),
         "nonascii_digits": "٢٠٢٥-٠١-٠١T١٠:٣٠:٠٠Z",
-        "feb30": "2025-02-30T10:30:00Z", "h24": "2025-01-01T24:00:00Z", "sec60": "2025-01-01T10:30:60Z",
+        "feb30": r.choice(["2025-02-30T10:30:00Z", "2031-04-31T00:00:00Z", "2031-02-29T12:00:00Z", "1900-02-29T00:00:00Z"]),
+        "month13": r.choice(["2025-13-01T10:30:00Z", "2025-00-10T10:30:00Z"]), "day00": r.choice(["2025-01-00T10:30:00Z", "2025-01-32T10:30:00Z"]),
+        "hour25": "2025-01-01T25:00:00Z", "min60": "2025-01-01T10:60:00Z",
+        "h24": "2025-01-01T24:00:00Z", "sec60": "2025-01-01T23:59:60Z", "year0": "0000-01-01T00:00:00Z",
     }[c]
 
 
